@@ -49,8 +49,17 @@ func escape(b *bytes.Buffer, r rune, force bool) {
 			b.WriteString(s)
 			break
 		}
+		if r > 0xFFFF {
+			// There's no fixed-width escape above \uFFFF. Such a rune has no special
+			// meaning in a pattern, so it stands for itself.
+			b.WriteRune(r)
+			break
+		}
 		b.WriteString(`\u`)
-		b.WriteString(strconv.FormatInt(int64(r), 16))
+		s := strconv.FormatInt(int64(r), 16)
+		// the parser reads exactly 4 hex digits after \u
+		b.WriteString(strings.Repeat("0", 4-len(s)))
+		b.WriteString(s)
 	}
 }
 
